@@ -3,7 +3,7 @@
 # pylint: disable=too-many-locals
 
 import traceback
-from copy import deepcopy
+from copy import copy, deepcopy
 from typing import Iterable, List, Optional, Union
 
 import numpy as np
@@ -69,12 +69,12 @@ class ColumnBackend(ArraySchemaBackend):
         def validate_column(check_obj, column_name, return_check_obj=False):
             try:
                 # pylint: disable=super-with-arguments
-                # make sure the schema component mutations are reverted after
-                # validation
-                _orig_name = schema.name
+                # validate with a shallow copy named after the matched column
+                # so that the schema component itself is never mutated, also
+                # when validation fails or runs concurrently
                 validated_check_obj = super(ColumnBackend, self).validate(
                     check_obj,
-                    schema.set_name(column_name),
+                    copy(schema).set_name(column_name),
                     head=head,
                     tail=tail,
                     sample=sample,
@@ -82,8 +82,6 @@ class ColumnBackend(ArraySchemaBackend):
                     lazy=lazy,
                     inplace=inplace,
                 )
-                # revert the schema component mutations
-                schema.name = _orig_name
 
                 if return_check_obj:
                     return validated_check_obj
